@@ -17,7 +17,8 @@ def sh(cmd, cwd, timeout=1500):
 def main():
     pid, n = sys.argv[1], sys.argv[2]
     src = sys.argv[3] if len(sys.argv) > 3 else f"/tmp/seed/{pid}/_seed/{n}"
-    wt = f"/tmp/confirm/{pid}-{n}"
+    name = sys.argv[4] if len(sys.argv) > 4 else f"{pid}-{n}"
+    wt = f"/tmp/confirm/{name}"
     os.makedirs("/tmp/confirm", exist_ok=True)
     subprocess.run(f"git -C /repo worktree remove --force {wt}", shell=True, capture_output=True)
     rc, out = sh(f"git -C /repo worktree add -q --detach {wt} HEAD", "/")
@@ -73,7 +74,7 @@ def main():
         res["repo_head"] = subprocess.run("git -C /repo rev-parse --short HEAD", shell=True, capture_output=True, text=True).stdout.strip()
         res["ran"] = ["demo on unchanged worktree", "git apply patch.diff", "go build ./...", "demo with change", "go test -vet=off -count=1 ./... with change (demo removed)"]
         if res["confirmed"]:
-            dst = f"/verif/seeded/{pid}-{n}"
+            dst = f"/verif/seeded/{name}"
             os.makedirs(dst, exist_ok=True)
             shutil.copy(os.path.join(src, "patch.diff"), dst)
             for d in demos:
@@ -83,7 +84,7 @@ def main():
             if os.path.exists(notes):
                 shutil.copy(notes, dst)
             json.dump(res, open(os.path.join(dst, "meta.json"), "w"), indent=1)
-        print(pid, n, "CONFIRMED" if res["confirmed"] else "REJECTED", {k: v for k, v in res.items() if k in ("demo_without_change", "build_with_change", "demo_with_change", "suite_with_change", "error")})
+        print(name, "CONFIRMED" if res["confirmed"] else "REJECTED", {k: v for k, v in res.items() if k in ("demo_without_change", "build_with_change", "demo_with_change", "suite_with_change", "error")})
     finally:
         subprocess.run(f"git -C /repo worktree remove --force {wt}", shell=True, capture_output=True)
     return 0
